@@ -44,6 +44,16 @@ def cases(tier, variants):
             yield dict(c, sc=s, tgt=1, upd=1)
             yield dict(c, sc=s, tgt=0, user="samebuf")
             yield dict(c, sc=s, tgt=0, user="constbuf")
+    # letter: gtol placed between the projected-gradient norms of f and of s*f at the
+    # start (the very first stop test must look at the scaled gradient)
+    for c in F.convex_cases(2, variants, (3,), fams=("quart",), hesses=("rot2",)):
+        for s in (0, 3, 4):
+            yield dict(c, sc=s, tgt=0, gmid=1)
+    # letter: an update function that really redefines the objective at its first
+    # (pre-loop) call - rescales it by 0.5 - in both runs
+    for c in F.convex_cases(2, variants, (3,), fams=("quart",), hesses=("rot2",)):
+        for s in (0, 3):
+            yield dict(c, sc=s, tgt=0, upd=2)
     # letter: the scaler hands its factor back as a numpy 0-d array
     for c in F.convex_cases(2, variants, (3,), fams=("quart",), hesses=("rot2",)):
         for s in (0, 3):
@@ -141,18 +151,44 @@ def run(case):
     ident = (lambda x, f0, f0_old, grad, X, G: (f0, f0_old, grad, G)) if case.get("upd") else None
     if ident is not None:
         kw = dict(kw, update_fun_def=ident)
+    if case.get("gmid"):
+        pg0 = F.pgnorm(x0c, g0, p.lb, p.ub)
+        if pg0 == 0:
+            return dict(viol=[], outcome="zero_pg_skipped", stats={"skipped": 1})
+        kw = dict(kw, gtol=float(np.sqrt(s) * pg0))
+    hooks = None
+    if case.get("upd") == 2:
+        # one hook (with its own factor cell) per run; the objective of that run reads it
+        def make_hook():
+            cell, n_ = [1.0], [0]
+
+            def hook(x, f0, f0_old, grad, X, G):
+                n_[0] += 1
+                if n_[0] == 1:
+                    cell[0] = 0.5
+                    return 0.5 * f0, 0.5 * f0_old, 0.5 * grad, type(G)(0.5 * q for q in G)
+                return f0, f0_old, grad, G
+            return cell, hook
+        ca, ha = make_hook()
+        cb_, hb = make_hook()
+        oa = F.Obs(lambda x: ca[0] * p.f(x), lambda x: ca[0] * np.asarray(p.g(x), float),
+                   p.lb, p.ub)
+        ob = F.Obs(lambda x: cb_[0] * p.f(x) * s, lambda x: cb_[0] * np.asarray(p.g(x), float) * s,
+                   p.lb, p.ub)
+        hooks = (ha, hb)
     ea = eb = None
     try:
         a = minimize_lbfgsb(x0=p.x0.copy(), fun=oa.fun, jac=getattr(oa, "jac_raw", oa.jac),
                             gradient_scaler=scaler,
-                            ftarget=tgt, **kw)
+                            ftarget=tgt, **(dict(kw, update_fun_def=hooks[0]) if hooks else kw))
     except core.CaseTimeout:
         raise
     except Exception as e:
         ea = repr(e)
     try:
         b = minimize_lbfgsb(x0=p.x0.copy(), fun=ob.fun, jac=getattr(ob, "jac_raw", ob.jac),
-                            ftarget=(None if tgt is None else tgt * s), **kw)
+                            ftarget=(None if tgt is None else tgt * s),
+                            **(dict(kw, update_fun_def=hooks[1]) if hooks else kw))
     except core.CaseTimeout:
         raise
     except Exception as e:
